@@ -36,6 +36,12 @@ def gen_lp(rng, i):
         x0[j] = float(rng.randint(0, 1))
     rows, b, ct = [], [], ''
     infeasible = rng.random() < 0.15
+    if rng.random() < 0.2:
+        # a row without entries (e.g. a user restriction whose time-varying factor is zero): 0 <op> rhs, satisfiable or not
+        t = rng.choice('ULSN')
+        ok = rng.random() < 0.5
+        rhs = {'U': 1.0 if ok else -1.0, 'L': -1.0 if ok else 1.0, 'S': 0.0 if ok else 0.5, 'N': 0.0 if ok else -0.5}[t]
+        rows.append([[], []]); b.append(rhs); ct += t
     for r in range(m):
         k = rng.randint(1, min(3, n))
         cols = sorted(rng.sample(range(n), k))
@@ -92,11 +98,15 @@ def run(ctx):
         solvers = [{}, {'solver': 'SCIPY'}, {'solver': 'CLARABEL'}, {'solver': 'SCIP'}, {'interface': 'ortools'}]
     for sp in specs:
         sp['opts']['solvers'] = solvers
+    for sp in specs[::3]:
+        # the relaxed problem is solved first on the same object; the regular solve afterwards must still be a MIP solve
+        sp['opts']['solvers'] = [{'make_soft_problem': True}] + solvers
     specs = ctx.specs(specs)
     res = C.run_impl('optim', specs)
     exprs, owners = [], []
     fexprs, fowners = [], []
     texprs, towners = [], []
+    res_of = {}
     for sp, o in zip(specs, res):
         ctx.count('status:' + str(o.get('status')))
         if o.get('status') != 'ok':
@@ -122,14 +132,16 @@ def run(ctx):
             if r['solve'] == 'optimal':
                 scale = 1 + abs(r['value']) + max([abs(v) for v in prob['b']] + [0])
                 eps = 2e-6 * scale
-                if r.get('duals') and not ismip:
+                if r.get('duals') and (not ismip or r['kw'].get('make_soft_problem')):
                     y = duals_to_y(prob, r['duals'])
                     have_y = True
                 else:
                     y, have_y = [0.0] * len(prob['b']), False
+                soft = bool(r['kw'].get('make_soft_problem'))
                 exprs.append('(c03_case %s %s %s %s %s %s)' % (C.lp(prob), C.qvec(r['x']), C.qvec(y), C.q(r['value']),
-                                                               C.q(eps), C.lst([C.nat(j) for j in o['bools']])))
+                                                               C.q(eps), C.lst([] if soft else [C.nat(j) for j in o['bools']])))
                 owners.append((sp, r, have_y))
+                res_of[id(r)] = prob
                 ctx.sample({'spec': sp if 'lp' in sp else {'id': sp['id'], 'assets': sp['assets'], 'grid': sp['grid']}, 'run': r['kw']})
             elif r['solve'] in ('not successful', 'infeasible'):
                 if r.get('farkas') is not None:
@@ -154,9 +166,22 @@ def run(ctx):
             if k == 2 and not have_y:
                 continue   # MIP / no duals: optimality not certified here (see level_note)
             if not ok:
+                trig = {'what': nm}
+                if k == 0:
+                    # which rows does the returned point violate?  (python floats; only used to recognise the listed finding)
+                    prob = res_of[id(r)]
+                    viol = []
+                    for (cols, vals), t, bb in zip(prob['rows'], prob['cType'], prob['b']):
+                        ax = sum(v * r['x'][j] for j, v in zip(cols, vals))
+                        tol = 1e-5 * (1 + abs(bb))
+                        if (t == 'U' and ax > bb + tol) or (t == 'L' and ax < bb - tol) or (t in 'SN' and abs(ax - bb) > tol):
+                            viol.append(len(cols))
+                    inbox = all(l - 1e-6 <= xv <= u + 1e-6 for l, u, xv in zip(prob['l'], prob['u'], r['x']))
+                    if viol and all(n == 0 for n in viol) and inbox and r['kw'].get('solver') in (None, 'SCIP') and any(m['bool'] for m in prob['mapping']):
+                        trig = {'what': 'MIP with a row without entries that cannot hold: accepted by the SCIP interface'}
                 ctx.violation('validator-rejected', {'spec': sp, 'run': r['kw'], 'observed': {'x': r['x'], 'value': r['value']},
                                                      'expected': nm, 'theorem_or_correspondence': 'Cert.' + ['check_primal_eps', 'value', 'check_opt', 'bools'][k]},
-                              trigger={'what': nm})
+                              trigger=trig)
     if fexprs:
         fv = C.run_coq_exprs('C03f', 'Num LP Cert Mapping Dcf Corr', fexprs, chunk=10)
         for (sp, r), ok in zip(fowners, fv):
